@@ -10,6 +10,7 @@ mod lexfam;
 mod parsefam;
 mod pool;
 mod proj;
+mod purefam;
 mod relfam;
 mod xform;
 mod run;
@@ -81,6 +82,7 @@ fn main() {
         "gen-lex" => lexfam::gen_lex(&args),
         "gen-total" => totalfam::gen_total(&args),
         "gen-enc" => encfam::gen_enc(&args),
+        "gen-pure" => purefam::gen_pure(&args),
         "gen-session" => session::gen_session_records(&args),
         "gen-session-abort" => session::gen_session_abort(&args),
         "gen-session-alphabet" => session::gen_session_alphabet(&args),
